@@ -138,6 +138,19 @@ pub fn run(_args: &[String]) -> i32 {
             }
         }
     }
+    // a computed counter amount whose quotient does not terminate: it is printed with every digit rust_decimal keeps (28 places) and must read
+    // back as that very number (seed C15-l: the number reader rejected exactly 28 fraction digits)
+    {
+        let cfg4 = cfg.replace("    charge: Charge\n", "    charge: Charge\n    rate: Rate\n").replace("rewrite:\n", "rewrite:\n  - matcher:\n      payee: \"Wire\"\n    account: Assets:Wire\n    conversion:\n      amount: compute\n      commodity: EUR\n      rate: price_of_secondary\n");
+        for (i, (amount, rate)) in [("-5.00", "1.1767"), ("1", "3"), ("-2353.40", "1.1767"), ("100", "7")].iter().enumerate() {
+            evaluated += 1;
+            let csv = format!("Date,Text,Note,Amount,Balance,Charge,Rate\n2024-05-01,Wire,,{},987.5,,{}\n", amount, rate);
+            if let Some((desc, why)) = one(tmp.path(), &format!("conv{}", i), &cfg4, "gen.csv", csv.as_bytes(), Format::Csv) {
+                let key = format!("csv amount {} at rate {} with a computed counter amount: {}", amount, rate, why.split("\nprinted:").next().unwrap_or(""));
+                if bad.len() < 12 { bad.push((desc, why)); keys.push(key); }
+            }
+        }
+    }
     // long counter accounts: the printed amount must stay separated from the account by two spaces
     for l in 34..=48usize {
         evaluated += 1;
